@@ -18,7 +18,7 @@ std::set<const void *> g_live;      // addresses of callable objects that are cu
 struct Canary {
     unsigned magic = LIVE;
     Canary() { g_live.insert(this); }
-    Canary(const Canary &) { g_live.insert(this); }
+    Canary(const Canary &o) { o.check("copy/move of the callable"); g_live.insert(this); }
     Canary &operator=(const Canary &) = default;
     ~Canary() { magic = DEAD; g_live.erase(this); }
     void check(const char *what) const {
